@@ -31,7 +31,7 @@ type discard struct{}
 func (discard) Write(p []byte) (int, error) { return len(p), nil }
 
 const (
-	srcW = "/sim/sw/db" // builder's (writable) view of the source
+	srcW = "/sim/sw/db"  // builder's (writable) view of the source
 	srcR = "/sim/src/db" // the merge process' view of the source (read-only mount)
 	dstW = "/sim/dst/db" // the merge process' (and builder's) view of the destination
 	dstR = "/sim/dr/db"  // checker's view of the destination
